@@ -119,5 +119,7 @@ Next == PickN1 \/ PickN2 \/ PickM \/ PickFlags \/ PickKind \/ PickCell
 Spec == Init /\ [][Next]_vars
 
 Complete == todo = "done" \/ SimDone
-Emit == todo = "done" => PrintT(<<"HIST", ToJson(b)>>)
+\* kill maps are emitted compactly: [nA, nM, viol[1]]
+Emit == todo = "done" =>
+          PrintT(<<"HIST", IF b.mode = "map" THEN ToJson(<<b.nA[1], b.nM, b.viol[1]>>) ELSE ToJson(b)>>)
 =============================================================================
